@@ -508,10 +508,10 @@ pub fn run(tier: Tier, replay: Option<Value>) -> i32 {
         bulk();
     }
     let needs: &[(&str, u64)] = if replay.is_some() { &[] } else {
-        &[("large_block_scenarios", 2), ("large_block_writes_observed", 4), ("unchanged_backups_of_versions_with_more_than_10000_hunks", 1), ("unchanged_backups_over_a_hunk_of_tens_of_megabytes", 1), ("unchanged_tree_backups", 10), ("block_writes_observed", 100), ("resume_crash_points", 100), ("crash_points_with_recorded_file_entries", 20), ("recorded_entries_compared", 50), ("unchanged_resume_crash_points", 100), ("read_fault_runs", 100)]
+        &[("large_block_scenarios", 2), ("large_block_writes_observed", 4), ("unchanged_backups_of_versions_with_more_than_10000_hunks", 1), ("unchanged_backups_over_a_hunk_of_tens_of_megabytes", 1), ("unchanged_tree_backups", 10), ("unchanged_tree_backups_with_foreign_files_in_the_archive", 3), ("block_writes_observed", 100), ("resume_crash_points", 100), ("crash_points_with_recorded_file_entries", 20), ("recorded_entries_compared", 50), ("unchanged_resume_crash_points", 100), ("read_fault_runs", 100)]
     };
     run.finish(
-        "clause 1: in histories, a second backup of an untouched tree (same or different options; every other time with the owner option switched off) must issue zero block writes, report written_blocks == 0 and record identical addresses for every file (independent decode); clause 2: in every backup of every history each block write is issued only for a name whose file is absent or zero-length, and at most once (attempts are counted, from the interceptor log with pre-states); clause 3: for EVERY crash point k of the C03 scenarios' backup trace, the run is killed before k and then resumed with the same options: no block file left non-empty by the interrupted run is written again, every file entry recorded in the interrupted run's hunks reappears with identical addresses, and unmodified_files >= their number; and for trees that have not changed since the last complete version, a backup killed at EVERY point followed by another backup must still write no block and record that version's addresses. Also, clause 2 under single faults: every read / list_dir / metadata operation of a backup's trace fails once with each of 4 kinds, and still no block write may be issued for a name whose file exists non-empty. Scale: a 10 040-file tree with one entry per hunk backed up twice (no block written, same addresses); a tree that grows to include a 16 MiB file stored in 64-byte blocks (262 144 addresses: one hunk of tens of megabytes) and is then backed up unchanged; two scenarios with blocks of 9-20 MiB (two identical 21 MiB files and two identical 9 MiB files under default options; one 27 MiB file of three identical 9 MiB blocks): each block is written once, a second backup writes none, the restore is exact. Distinct = histories with an unchanged-tree pair / (scenario, k) with recorded entries.",
+        "clause 1: in histories, a second backup of an untouched tree (same or different options; every other time with the owner option switched off; every third time with files of another program -- .DS_Store, .nfs... -- beside the band directories, in the previous band, in its index directory and in its first hunk subdirectory) must issue zero block writes, report written_blocks == 0 and record identical addresses for every file (independent decode); clause 2: in every backup of every history each block write is issued only for a name whose file is absent or zero-length, and at most once (attempts are counted, from the interceptor log with pre-states); clause 3: for EVERY crash point k of the C03 scenarios' backup trace, the run is killed before k and then resumed with the same options: no block file left non-empty by the interrupted run is written again, every file entry recorded in the interrupted run's hunks reappears with identical addresses, and unmodified_files >= their number; and for trees that have not changed since the last complete version, a backup killed at EVERY point followed by another backup must still write no block and record that version's addresses. Also, clause 2 under single faults: every read / list_dir / metadata operation of a backup's trace fails once with each of 4 kinds, and still no block write may be issued for a name whose file exists non-empty. Scale: a 10 040-file tree with one entry per hunk backed up twice (no block written, same addresses); a tree that grows to include a 16 MiB file stored in 64-byte blocks (262 144 addresses: one hunk of tens of megabytes) and is then backed up unchanged; two scenarios with blocks of 9-20 MiB (two identical 21 MiB files and two identical 9 MiB files under default options; one 27 MiB file of three identical 9 MiB blocks): each block is written once, a second backup writes none, the restore is exact. Distinct = histories with an unchanged-tree pair / (scenario, k) with recorded entries.",
         &["kill = no later storage effect", "E2 reader trusted"],
         Some(true),
         needs,
